@@ -46,6 +46,8 @@ def positions(sub, r):
         "keyedany": {"type": "object", "propertyNames": {"pattern": "^[a-z]+$"}, "additionalProperties": True},
         "patany": {"type": "object", "patternProperties": {"^x-": {}}, "additionalProperties": False},
         "keyedtyped": {"type": "object", "propertyNames": {"pattern": "^[a-z]+$"}, "additionalProperties": {"type": "integer"}},
+        "keyedtrue": {"type": "object", "propertyNames": True, "additionalProperties": {"type": "integer"}},
+        "keyedempty": {"type": "object", "propertyNames": {}, "additionalProperties": {"type": "string"}},
         "nested": {"type": "object", "properties": {"deep": {"type": "array", "items": {"type": "object", "additionalProperties": copy.deepcopy(sub)}}}},
     }, "required": ["p", "arr", "tup", "fixed", "m", "nullable", "w_allof", "w_oneof", "w_anyof"]}
     enum = {"oneOf": [{"type": "string", "enum": ["Unit"]},
